@@ -672,6 +672,21 @@ def gen_ep2(pf, pts, rng, tier):
         if x is not None:
             special.append((x, (y0, 0)))
             special.append((x, (p - y0, 0)))
+    # points whose deciding y coordinate sits on the boundary of the sign convention: (p-1)/2 and (p+1)/2
+    h = (p - 1) // 2
+    found = 0
+    for ydec in (h, h + 1, h - 1, h + 2):
+        for other in range(0, 60):
+            for y in (((other, ydec),) if other else ((ydec, 0), (0, ydec))):
+                yy = f2.mul(y, y)
+                cc = ((yy[0] - pf["b2"][0]) % p, (yy[1] - pf["b2"][1]) % p)
+                x = f2.cube_root(cc, rng)
+                if x is not None:
+                    special.append((x, y))
+                    found += 1
+            if found >= (2 if quick else 4):
+                break
+        found = 0
     # ---- writers
     toks = ["inf", "m1", "m2", "m3", "m%x" % (n - 1), "d1", "d%x" % rng.randrange(1, n)]
     toks += ["m%x" % rng.randrange(1, n) for _ in range(2 if quick else 10)]
